@@ -10,9 +10,8 @@ import (
 	w "verif/harness/wire"
 )
 
-// Mix: one experiment. Every one of g goroutines runs the whole batch, each in its own random order with random runtime.Gosched calls, all
-// sharing the pool; then the batch is run alone (sequentially, one call at a time). The concurrent phase comes first so that state kept
-// between calls (a cache) is still cold when the goroutines start in a fresh process. Reported per call instance: whether every
+// Mix: one experiment. The batch is run alone (one call at a time): that is the reference. Then every one of g goroutines runs the whole batch,
+// each in its own random order with random runtime.Gosched calls, all sharing the pool; then the batch is run alone again. Reported per call instance: whether every
 // concurrent execution returned the result of the solo run; and whether the pool is byte-for-byte what it was before.
 type MixResult struct {
 	Flags      []bool
@@ -37,21 +36,62 @@ func trunc(s string, n int) string {
 	return s
 }
 
+// MixCfg: one experiment. Cold = the concurrent phase comes first (state kept between calls, e.g. a cache, is still cold when the goroutines
+// start in a fresh process; used by vrace for the first round of every process, with the solo reference Ref computed by another fresh process).
+// Otherwise: solo run, concurrent phase, solo run again; reference = the first solo run.
+type MixCfg struct {
+	PoolSeed, BatchSeed int64
+	K, G                int
+	SchedSeed           int64
+	Focus               int
+	Cold                bool
+	Ref                 []string
+}
+
 func RunMix(poolSeed, batchSeed int64, k, g int, schedSeed int64, focus int) MixResult {
+	return RunMixCfg(MixCfg{PoolSeed: poolSeed, BatchSeed: batchSeed, K: k, G: g, SchedSeed: schedSeed, Focus: focus})
+}
+
+// SoloRef: the results of the batch run alone, one call at a time (vrace runs this in a fresh process).
+func SoloRef(poolSeed, batchSeed int64, k, focus int) []string {
 	p := NewPool(poolSeed)
+	batch := Batch(rand.New(rand.NewSource(batchSeed)), k, focus)
+	out := make([]string, len(batch))
+	for i, in := range batch {
+		out[i] = RunInst(p, in)
+	}
+	return out
+}
+
+func RunMixCfg(c MixCfg) MixResult {
+	k, g := c.K, c.G
+	p := NewPool(c.PoolSeed)
 	before := p.Snapshot()
 	if k < 0 {
 		k = 0
 	}
-	batch := Batch(rand.New(rand.NewSource(batchSeed)), k, focus)
+	batch := Batch(rand.New(rand.NewSource(c.BatchSeed)), k, c.Focus)
 	res := MixResult{Flags: make([]bool, k), Solo: make([]string, k)}
+	solo := func() []string {
+		out := make([]string, k)
+		for i, in := range batch {
+			out[i] = RunInst(p, in)
+		}
+		return out
+	}
+	var pre []string
+	afterPre := before
+	if !c.Cold {
+		pre = solo()
+		afterPre = p.Snapshot()
+	}
 	// concurrent phase
 	par := make([][]string, g)
 	var wg sync.WaitGroup
 	start := make(chan struct{})
 	for t := 0; t < g; t++ {
 		par[t] = make([]string, k)
-		r := rand.New(rand.NewSource(schedSeed*1000003 + int64(t)))
+		r := rand.New(rand.NewSource(c.SchedSeed*1000003 + int64(t)))
 		order := r.Perm(k)
 		wg.Add(1)
 		go func(t int, order []int, r *rand.Rand) {
@@ -68,28 +108,46 @@ func RunMix(poolSeed, batchSeed int64, k, g int, schedSeed int64, focus int) Mix
 	close(start)
 	wg.Wait()
 	after := p.Snapshot()
-	for i, in := range batch {
-		res.Solo[i] = RunInst(p, in)
+	post := solo()
+	afterPost := p.Snapshot()
+	ref := post
+	if pre != nil {
+		ref = pre
 	}
-	afterSolo := p.Snapshot()
+	if len(c.Ref) == k && k > 0 {
+		ref = c.Ref
+	}
+	copy(res.Solo, ref)
 	for i := range batch {
 		res.Flags[i] = true
+		name := Catalogue[batch[i].Idx].Name
+		bad := func(what, got string) {
+			if res.Flags[i] {
+				res.Bad = append(res.Bad, name+what)
+				res.Diff = append(res.Diff, Mismatch{Call: name + what, Index: batch[i].Idx, ArgSeed: batch[i].Seed, Solo: trunc(ref[i], 600), Parallel: trunc(got, 600)})
+			}
+			res.Flags[i] = false
+		}
 		for t := 0; t < g; t++ {
-			if par[t][i] != res.Solo[i] {
-				if res.Flags[i] {
-					res.Bad = append(res.Bad, Catalogue[batch[i].Idx].Name)
-					res.Diff = append(res.Diff, Mismatch{Call: Catalogue[batch[i].Idx].Name, Index: batch[i].Idx, ArgSeed: batch[i].Seed,
-						Solo: trunc(res.Solo[i], 600), Parallel: trunc(par[t][i], 600)})
-				}
-				res.Flags[i] = false
+			if par[t][i] != ref[i] {
+				bad("", par[t][i])
 			}
 		}
+		if pre != nil && pre[i] != ref[i] {
+			bad(" (run alone in this process vs alone in a fresh process)", pre[i])
+		}
+		if post[i] != ref[i] {
+			bad(" (run alone again after the concurrent phase)", post[i])
+		}
 	}
-	res.Unmodified = before == afterSolo && before == after
-	if before != after {
+	res.Unmodified = before == afterPre && before == after && before == afterPost
+	switch {
+	case before != afterPre:
+		res.Bad = append(res.Bad, "inputs modified by a sequential call: "+firstDiff(before, afterPre))
+	case before != after:
 		res.Bad = append(res.Bad, "inputs modified during the concurrent phase: "+firstDiff(before, after))
-	} else if before != afterSolo {
-		res.Bad = append(res.Bad, "inputs modified by a sequential call: "+firstDiff(before, afterSolo))
+	case before != afterPost:
+		res.Bad = append(res.Bad, "inputs modified by a sequential call: "+firstDiff(before, afterPost))
 	}
 	return res
 }
@@ -173,19 +231,19 @@ func fnParallelMix() *run.Fn {
 }
 
 func init() {
-	Scale["C19"] = 1500
+	Scale["C19"] = 500
 	Registry["C19"] = func(r *run.Runner, g *Gen, n int) {
 		r.Register(fnParallelMix())
 		for i := 0; i < n; i++ {
 			k := 8 + g.Intn(40)
 			gor := 2 + g.Intn(15)
-			switch g.Intn(12) {
-			case 0:
+			switch g.Intn(40) {
+			case 0, 1, 2:
 				gor = 16
 				k = len(Catalogue)
-			case 1:
+			case 3:
 				gor = 1
-			case 2:
+			case 4:
 				k = 0
 			}
 			focus := 0
